@@ -220,6 +220,36 @@ pub fn check_tokens(toks: &[Tok], l: &mut Local) -> Outcome {
                 );
             }
         }
+        // ... and through the string-level read-only entry point (which has its own glue)
+        let fresh = build_hashmap(&Ctx::new(Kind::HashMap), &log);
+        if let Ok(got_s) = vcore::catch(|| map_result(&evalexpr::eval_with_context(&src, &fresh))) {
+            if !outcome_matches(&exp_i, &got_s) {
+                return fail(
+                    format!("C05/different value through eval_with_context(string) [{}]", sig),
+                    outcome_canon(&exp_i),
+                    outcome_canon(&got_s),
+                    tokens_case(toks),
+                    toks.len(),
+                );
+            }
+        }
+    }
+    // the string-level mutable entry point: same value and same effects as the tree-level run
+    let mut real_s = build_hashmap(&Ctx::new(Kind::HashMap), &log);
+    if let Ok(got_s) = vcore::catch(|| map_result(&evalexpr::eval_with_context_mut(&src, &mut real_s))) {
+        if !outcome_matches(&exp_r, &got_s) {
+            return fail(
+                format!("C05/different value through eval_with_context_mut(string) [{}]", sig),
+                outcome_canon(&exp_r),
+                outcome_canon(&got_s),
+                tokens_case(toks),
+                toks.len(),
+            );
+        }
+        let obs = observe(&real_s, &["x".to_string(), "a".to_string()], &[]);
+        if let Some(d) = state_diff(&obs, &model) {
+            return fail(format!("C05/different effects through eval_with_context_mut(string) [{}]", sig), model.describe(), d, tokens_case(toks), toks.len());
+        }
     }
     Ok(())
 }
@@ -255,7 +285,9 @@ pub fn run(rep: &Report) {
         "(a) every token sequence up to the length bound over the sequence alphabet `1 x = , ; ( )` and over the base \
          alphabet (those containing a separator or `()`), classified by the reference parser; well-formed ones must \
          build into the reference chain-of-tuples tree and evaluate (mutable, fresh HashMapContext) to the reference \
-         interpreter's value and final variables. (b) random nested sequence ASTs with empty elements, assignments and \
+         interpreter's value and final variables — through the tree-level evaluator, through eval_tuple() / eval_empty(), \
+         through the string-level eval_with_context_mut, and (sequences without assignment operators) through the \
+         tree-level and string-level read-only evaluators. (b) random nested sequence ASTs with empty elements, assignments and \
          reads, rendered with minimal and redundant parentheses. Non-trivial: a level mixing `,` and `;`, or an empty \
          element, or an assignment read by a later element.",
     );
